@@ -12,7 +12,9 @@ from pv.ref.setops import multiset
 ID = "C20"
 LEVEL = "exploration"
 RULE = ("Exhaustive enumeration of (catalogue entry x header shape x non-empty subset of inputs made header-only x "
-        "filler table for the remaining inputs). Oracle: no exception, and the zero-row value of the entry: the "
+        "filler table for the remaining inputs), each also after a header peek, with the sources emptied only after the view "
+        "was first used, and (sort-backed entries) with petl.config.sort_buffersize = 1 and a counting pass before two "
+        "further passes. Oracle: no exception, and the zero-row value of the entry: the "
         "reference model where one is attached (joins, set operations, cat/stack/annex, sorts, key-less aggregates), "
         "a literal where the header depends on data, otherwise 'same header as on a non-empty input of the same "
         "shape and no data rows'. Every case is non-trivial by construction (trivially small inputs are the point); "
@@ -205,6 +207,13 @@ def run_entry(e, S, tmp, mode="fresh", mask=()):
         res = e.build(S)
     if e.has("nonview"):
         return e.norm(res)
+    if mode == "smallbuffer":
+        # (the caller has set petl.config.sort_buffersize to 1) a counting pass first, then the two passes below: three
+        # passes over a sort that went through chunk files
+        n = len(res)
+        a = [tuple(r) for r in res]
+        if n != len(a):
+            raise _PassDiffers("len(view) is %d, the next pass delivers %d rows" % (n, len(a)))
     if mode == "peek":
         it = iter(res)
         next(it, None)
@@ -241,6 +250,8 @@ def enum_cases(tier):
                             yield {"entry": name, "shape": list(shape), "empty": list(mask), "filler": fi, "mode": "peek"}
                             if _emptied_ok(e):
                                 yield {"entry": name, "shape": list(shape), "empty": list(mask), "filler": fi, "mode": "emptied"}
+                            if e.has("sorted") and si == 0:
+                                yield {"entry": name, "shape": list(shape), "empty": list(mask), "filler": fi, "mode": "smallbuffer"}
 
 
 def check(case, ctx):
@@ -255,12 +266,18 @@ def check(case, ctx):
         S = codec.snapshot(full)   # the masked sources are emptied only after the view has been used once
     ctx.nontrivial(True)
     ctx.label("entry:" + e.name, "all-empty" if len(mask) == e.n else "some-empty", "mode:" + mode)
+    import petl.config as _cfg
+    _old = _cfg.sort_buffersize
     try:
+        if mode == "smallbuffer":
+            _cfg.sort_buffersize = 1
         got = run_entry(e, S, ctx.tmpdir() if e.has("file") else None, mode, sorted(mask))
     except _PassDiffers as ex:
         return Fail(e.name + "/second-pass-differs", str(ex))
     except Exception as ex:
         return exc_fail(e.name, ex)
+    finally:
+        _cfg.sort_buffersize = _old
     if not codec.strict_eq(snap, S):
         return Fail(e.name + "/source-mutated", "sources changed")
     if e.name in REFS:
